@@ -332,10 +332,14 @@ def entry(chk: Check):
                 break
     chk.decide(not badf, "K-FORMULA", "file-object-pointer-flag", chk.func(REL, "HyperVStorageKeyTableEntry.is_file_object_pointer").func,
                "is_file_object_pointer = bit 0 of the flags (evaluated for all 256 flag bytes)" if not badf else "; ".join(badf[:3]))
-    inline = [o for o in douts if o[0] == "return" and any(c == isf and not p for c, p in o[2])] or [o for o in douts if o[0] == "return"][-1:]
+    # which return serves which kind of entry: decided by evaluating the returns' path conditions with the flag forced
+    def taken(flag):
+        val = S.Valuation(1, override={isf: flag, tfield: (int(flag) << 8) | 3, flags_t: int(flag)})
+        return [o for o in douts if o[0] == "return" and eval_conds(o[2], val)][:1]
+    inline = taken(False)
     oki = bool(inline) and inline[-1][3][0] == "sub" and inline[-1][3][1] == raw and inline[-1][3][2] == ("slice", doff, S.C(None))
     chk.decide(oki, "K-FORMULA", "entry-data-inline", dctx.func, "inline data = raw[data_offset:]", found=S.show(inline[-1][3])[-120:] if inline else "none")
-    viaf = [o for o in douts if o[0] == "return" and o not in inline]
+    viaf = taken(True)
     okv = bool(viaf) and bool(find(viaf[0][3], lambda x: x[0] == "call" and x[1] == ".read")) and "get_file_object" in S.show(viaf[0][3])
     chk.decide(okv, "K-PROV", "entry-data-file-object", dctx.func, "pointer entries read `size` bytes from their file object")
     # value decoder
@@ -420,14 +424,22 @@ def entry(chk: Check):
         itc = R.expr(actx, fl[0].iter, actx.cfg.node_of[fl[0]], binds={"__exclude_loop__": fl[0]})
         okit = itc == S.call(".items", [R.self_attr(ek, "children")])
         CH = ("iter", itc, 1)
+        # every store, with the alternatives of a conditional value split into their own path conditions; decided by
+        # evaluating which store is reached for a Node child and for a leaf child
+        sites = []
         for st_ in ast.walk(fl[0]):
             if isinstance(st_, ast.Assign) and isinstance(st_.targets[0], ast.Subscript):
                 v = R.expr(actx, st_.value, actx.cfg.node_of[st_])
                 k = R.expr(actx, st_.targets[0].slice, actx.cfg.node_of[st_])
-                if v[0] == "ite":
-                    c = v[1]
-                    okc = c[0] == "cmp" and c[1] == "==" and c[2] == ("attr", CH, "type") and S.is_const(c[3]) and int(c[3][1]) == KDT["Node"]
-                    oka = okit and okc and v[2] == S.call(".as_dict", [CH]) and v[3] == ("attr", CH, "value") and k == ("iter", itc, 0)
+                for extra, alt in split_alternatives(v):
+                    sites.append((k, alt, conds_sym(chk, actx, st_) + list(extra)))
+        TYPE = ("attr", CH, "type")
+        oka = okit and bool(sites)
+        for tname, tv in KDT.items():
+            val = S.Valuation(1, override={TYPE: S.EnumConst(tv)})
+            hit = [(k, alt) for k, alt, conds in sites if eval_conds([(c, p_) for c, p_ in conds if S.contains(c, lambda x: x == CH)], val)]
+            want = S.call(".as_dict", [CH]) if tname == "Node" else ("attr", CH, "value")
+            oka = oka and len(hit) == 1 and hit[0][1] == want and hit[0][0] == ("iter", itc, 0)
     chk.decide(oka, "K-PATH", "as-dict-recursion", actx.func, "nodes recurse into their children, leaves contribute their decoded value")
 
 
